@@ -571,16 +571,19 @@ class EndpointLookupInterface(ThingWithCommonRD, ObservableResource):
                     def matches(x, original_matches=matches):
                         return any(original_matches(v) for v in x.split())
 
+                # The filter stages are evaluated eagerly: a lazily evaluated
+                # generator would only look up search_key and matches when it
+                # is consumed, by when they are those of the last criterion.
                 if search_key == "href":
-                    candidates = (
+                    candidates = [
                         c
                         for c in candidates
                         if matches(c.href)
                         or any(matches(r.href) for r in c.get_based_links().links)
-                    )
+                    ]
                     continue
 
-                candidates = (
+                candidates = [
                     c
                     for c in candidates
                     if (
@@ -593,7 +596,7 @@ class EndpointLookupInterface(ThingWithCommonRD, ObservableResource):
                         _link_matches(r, search_key, matches)
                         for r in c.get_based_links().links
                     )
-                )
+                ]
 
         candidates = _paginate(candidates, query)
 
@@ -631,18 +634,19 @@ class ResourceLookupInterface(ThingWithCommonRD, ObservableResource):
                     def matches(x, original_matches=matches):
                         return any(original_matches(v) for v in x.split())
 
+                # evaluated eagerly, see EndpointLookupInterface
                 if search_key == "href":
-                    candidates = (
+                    candidates = [
                         (e, c)
                         for (e, c) in candidates
                         if matches(c.href)
                         or matches(
                             e.href
                         )  # FIXME: They SHOULD give this as relative as we do, but don't have to
-                    )
+                    ]
                     continue
 
-                candidates = (
+                candidates = [
                     (e, c)
                     for (e, c) in candidates
                     if _link_matches(c, search_key, matches)
@@ -652,7 +656,7 @@ class ResourceLookupInterface(ThingWithCommonRD, ObservableResource):
                             matches(x) for x in e.registration_parameters[search_key]
                         )
                     )
-                )
+                ]
 
         # strip endpoint
         candidates = (c for (e, c) in candidates)
